@@ -302,6 +302,30 @@ def run(repo, rep):
             continue
         ks = sorted(k for (line, k) in kinds if line == n.lineno)
         if not ks:
+            if repo.is_helper(f):
+                continue        # judged where the helper is inlined
+            # a reset of the buffer by the state machine: only where nothing that was received can be pending -- on entering
+            # Sta1 (no transport), Sta2 / Sta4 (a new transport, nothing read from it), Sta13 (input is discarded)
+            v_ = getattr(n, 'value', None)
+            if isinstance(n, ast.Assign) and isinstance(v_, ast.Constant) and v_.value == b'':
+                from ..fsm_model import NO_PENDING_INPUT_STATES, entered_states
+                from ..sym import SymClient as _SC, empty_state as _es
+                cl_ = _SC(repo, f, event_of=lambda *a: None, hierarchy=pm.hier, inline=repo.is_helper,
+                          store_event=lambda t: t.endswith('.raw_pdu'))
+                cl_.run(_es())
+                sts_ = [(e_, s_) for e_, s_ in cl_.log if e_.kind == 'store' and e_.callee.endswith('.raw_pdu')]
+                bad_ = []
+                for e_, s_ in sts_:
+                    ent = entered_states(e_.conds, repo)
+                    if ent is None:
+                        bad_.append('the buffer is emptied at line %d on a path that is not tied to the state being entered' % e_.line)
+                    elif not ent <= set(NO_PENDING_INPUT_STATES):
+                        bad_.append('the buffer is emptied when the machine enters %s: in %s bytes that arrived behind the PDU that caused the '
+                                    'transition (same segment) are still to be framed' % (sorted(ent), sorted(ent - set(NO_PENDING_INPUT_STATES))))
+                rep.check(bool(sts_) and not bad_, 'C03.B1', 'dulprovider:%s:raw_pdu-writer:reset' % f.qualname, f.loc(n),
+                          'buffer emptied only on entering a state without pending input (%d paths)' % len(sts_),
+                          '; '.join(sorted(set(bad_))) or 'reset site not reached by the analysis')
+                continue
             rep.bad('C03.B1', 'dulprovider:%s:raw_pdu-writer:L-unreached' % f.qualname, f.loc(n),
                     'write to the receive buffer outside the analysed receive path: %s' % ast.unparse(n))
             continue
